@@ -160,7 +160,11 @@ def to_chain_structure(qc, setup="linear"):
                         )
 
             elif (end - start) == N - 1:
-                qc_t.add_gate(gate.name, gate.targets, gate.controls)
+                # the closing edge of the ring: the gate stays where it is
+                # (index containers other than list are accepted)
+                qc_t.add_gate(
+                    gate.name, list(gate.targets), list(gate.controls)
+                )
 
         elif gate.name in swap_gates:
             start = min([gate.targets[0], gate.targets[1]])
